@@ -40,7 +40,8 @@ Record qcfg := {
   q_cur : Z;     (* current blocks of the growth policy *)
   q_new : Z;     (* desiredNewBlocksCount *)
   q_mut : bool;  (* mutable growth policy (else immutable) *)
-  q_pb : Z       (* bytes the harness places in every fresh block (its probes) *)
+  q_pb : Z;      (* bytes the harness places in every fresh block (its probes) *)
+  q_init : Z     (* initialBlocksCount: blocks the block list holds when the map is constructed *)
 }.
 
 (** block_list_growth_policy.go *)
@@ -82,6 +83,30 @@ Record qst := {
 Definition init : qst :=
   {| rel := 0; tbr := 0; old := 0; cur := 0; new := 0; blocks := []; att := 0; aidx := -1;
      rdrs := []; puts := []; pcs := Idle; maxdet := 0; pstart := 0 |}.
+
+(** NewOldCurrentNewLocationBlobMap(..., initialBlocksCount): the restored
+    blocks are promoted from "old" to "new" as long as the growth policy wants
+    more "new" blocks (asked with 0 current blocks), then from "old" to
+    "current"; "old" blocks above desiredOldBlocksCount are to be released by
+    the next Put() (totalBlocksToBeReleased.Store).
+    [promote n grow x]:  for n > 0 && grow(x) { n--; x++ }. *)
+Fixpoint promote (n : nat) (grow : Z -> bool) (x : Z) : nat * Z :=
+  match n with
+  | O => (O, x)
+  | S m => if grow x then promote m grow (x + 1) else (n, x)
+  end.
+
+(** Every restored block holds the harness's probes ([q_pb] bytes).  Ghost
+    [maxdet]: the constructor's forced release counts as the first boundary
+    asked for. *)
+Definition init_of (c : qcfg) : qst :=
+  let '(n1, nw) := promote (Z.to_nat (q_init c)) (fun x => grow_new c 0 x) 0 in
+  let '(n2, cu) := promote n1 (grow_cur c) 0 in
+  let o := Z.of_nat n2 in
+  let t := if q_old c <? o then o - q_old c else 0 in
+  {| rel := 0; tbr := t; old := o; cur := cu; new := nw;
+     blocks := repeat (q_pb c) (Z.to_nat (q_init c)); att := 0; aidx := -1;
+     rdrs := []; puts := []; pcs := Idle; maxdet := t; pstart := 0 |}.
 
 (** BlockReferenceToBlockIndex's test [blockIndex < toBeReleased - released]
     on uint64. *)
